@@ -284,8 +284,19 @@ def run_crash_case(case: dict) -> dict:
                     state["last_kind"] = kind
                     if kind == "write" and ev[4] and fs.chunk:
                         probes["torn_write_instants"] += 1
-                    if state["instants"] % stride:
+                    # TFRecord: one oracle evaluation costs ~25 ms per shard
+                    # (TensorFlow builds a dataset per file), so the sampling
+                    # stride doubles after every 4 evaluations - a session
+                    # with thousands of effects stays within seconds.  The
+                    # instant of a kill is always evaluated.
+                    stride_now = stride
+                    if st["fmt"] == "tfrec":
+                        stride_now = stride << min(10, state.get("evals", 0)
+                                                   // 4)
+                    dies = state["instants"] == case.get("crash_at")
+                    if state["instants"] % stride_now and not dies:
                         return
+                    state["evals"] = state.get("evals", 0) + 1
                     try:
                         crash_oracle(hr, tracker, lower, upper, stats,
                                      f"crash after effect #{ev[0]} "
@@ -293,7 +304,7 @@ def run_crash_case(case: dict) -> dict:
                     except Violation as v:
                         state["violation"] = v
                         raise
-                    if state["instants"] == case.get("crash_at"):
+                    if dies:
                         # the process is killed right here: nothing it does
                         # from now on reaches the disk
                         state["crashed_at"] = (ev[0], kind, ev[3])
